@@ -47,6 +47,7 @@ type ccOut struct {
 	Tag int    `json:"tag"`
 	URL string `json:"url"`
 	Wid int    `json:"wid"`
+	Scr int    `json:"scr"` // what the route handler finds under the scratch key that the middleware of the same request left in c.Params()
 }
 
 type ccGates struct {
@@ -71,6 +72,7 @@ func ccFlame(g *ccGates) *flamego.Flame {
 		id := idOf(c.Request().Request)
 		g.gate(id)
 		c.Map(&reqTag{id})
+		c.Params()["_scratch"] = strconv.Itoa(id) // the Params map belongs to this request alone
 	})
 	f.Use(flamego.Recovery()) // development environment: the answer to a panic carries the formatted stack with source lines
 	f.Use(flamego.Renderer())
@@ -90,6 +92,7 @@ func ccFlame(g *ccGates) *flamego.Flame {
 				kind = "?svc"
 			}
 			out := ccOut{H: kind, Val: c.Param("v"), Tag: t.id, URL: c.URLPath("named", "v", c.Request().Header.Get("X-Val")), Wid: id}
+			out.Scr, _ = strconv.Atoi(c.Param("_scratch"))
 			b, _ := json.Marshal(out)
 			c.ResponseWriter().Header().Set("X-Wid", strconv.Itoa(id))
 			_, _ = c.ResponseWriter().Write(b)
@@ -99,6 +102,7 @@ func ccFlame(g *ccGates) *flamego.Flame {
 		id := idOf(c.Request().Request)
 		g.gate(id)
 		out := ccOut{H: "render", Val: c.Param("v"), Tag: t.id, URL: c.URLPath("named", "v", c.Request().Header.Get("X-Val")), Wid: id}
+		out.Scr, _ = strconv.Atoi(c.Param("_scratch"))
 		c.ResponseWriter().Header().Set("X-Wid", strconv.Itoa(id))
 		r.JSON(200, out) // through the Render service mapped by the Renderer middleware for this request
 	})
@@ -108,6 +112,7 @@ func ccFlame(g *ccGates) *flamego.Flame {
 		hd := c.ResponseWriter().Header()
 		hd.Set("X-Wid", strconv.Itoa(id))
 		hd.Set("X-Tag", strconv.Itoa(t.id))
+		hd.Set("X-Scr", c.Param("_scratch"))
 		hd.Set("X-Url", c.URLPath("named", "v", c.Request().Header.Get("X-Val")))
 		panic(fmt.Sprintf("boom-%s-%d-", c.Param("v"), id))
 	})
@@ -182,6 +187,7 @@ func ccReplay(raw json.RawMessage, idx int, tr *traceWriter) {
 					o.Wid, _ = strconv.Atoi(m[2])
 				}
 				o.Tag, _ = strconv.Atoi(w.Header().Get("X-Tag"))
+				o.Scr, _ = strconv.Atoi(w.Header().Get("X-Scr"))
 				o.URL = w.Header().Get("X-Url")
 				for _, all := range rePanicPage.FindAllString(w.Body.String(), -1) {
 					if all != m0(rq) {
